@@ -94,7 +94,7 @@ func dataFuncs(p *Program) []*ssa.Function {
 func checkArrayAlgebra(p *Program, r *Report, prop string) {
 	r.Rule("R01.1", "stride-unit consistency: abstract interpretation over units S (storage), R (allocated index), V (view index) with Start:S, Offset:S/R, Step:R/V, OffsetStep:S/V, loc:V, step:1; every store to those fields, every index into Impl and the result of Index must have the field's unit; helpers (dotProduct, Multiply, decrement, Ones, …) are analysed from their bodies")
 	r.Rule("R01.2", "views share storage: Slice returns a fresh struct whose Impl is the receiver's Impl (no allocation, no copy)")
-	r.Rule("R01.3", "single addressing path: every element access of a backing store uses Index(loc) of the same receiver with the method's own loc; Get and Set use the same path; range accesses Impl[a:b] only in contiguity-guarded fast paths")
+	r.Rule("R01.3", "single addressing path: every element access of a backing store uses Index(loc) of the same receiver with the method's own loc; Get and Set use the same path; range accesses Impl[a:b] only in contiguity-guarded fast paths, and never open-ended (Impl[a:] runs past the view)")
 	r.Assumptions = append(r.Assumptions,
 		"decides the shape of the index algebra and of storage sharing; does not decide that loc/dims/step are in bounds, nor arithmetic beyond dimensional consistency (a factor of 2 would pass)",
 		"Dims/OriginalDims are untyped (extents); integer literals and lengths are unit-polymorphic")
@@ -304,7 +304,9 @@ func checkArrayAlgebra(p *Program, r *Report, prop string) {
 						touched = true
 						k++
 						key := fmt.Sprintf("%s.%s:Impl[a:b]#%d", tname, n, k)
-						if guardedByContiguous(x.Block(), nil) {
+						if openEndedImplWindow(x) {
+							r.Fail("R01.3", key+":open-ended", p.Pos(x.Pos()), openEndedMsg)
+						} else if guardedByContiguous(x.Block(), nil) {
 							r.OK("R01.3", fmt.Sprintf("%s.%s: Impl[a:b] under a Contiguous() guard", tname, n))
 						} else {
 							r.Fail("R01.3", key, p.Pos(x.Pos()), "range access to the backing store outside a Contiguous()==true guard")
